@@ -91,6 +91,9 @@ class C13(Check):
                 data = bytes(rng.randrange(256) for _ in range(rng.randint(0, 30)))
             resp = "echo" if rng.random() < 0.3 else ("rand", rng.randrange(1 << 30))
             out.append({"args": args, "data": data, "resp": resp})
+            if rng.random() < 0.15:
+                # the same request issued by several tasks at once, through the real send loop (more than fit into one frame: 17, 20)
+                out[-1]["loop"] = rng.choice([2, 15, 16, 17, 20])
         return out
 
     def _resp(self, case, out):
@@ -104,7 +107,51 @@ class C13(Check):
         from ebpfcat.ethercat import EtherCat, ECCmd
         pyargs = [a[1] for a in case["args"]]
 
+        async def go_loop(n):
+            from .c11 import parse_frame
+            ec = EtherCat("verif0")
+            ec.send_queue = asyncio.Queue()
+            sent = []
+
+            class Transport:
+                def sendto(self, frame, addr=None):
+                    sent.append(bytes(frame))
+            ec.transport = Transport()
+            loop_task = asyncio.ensure_future(ec.sendloop())
+            tasks = [asyncio.ensure_future(ec.roundtrip(ECCmd.FPRD, 7 + i, 0x10, *pyargs, data=case["data"])) for i in range(n)]
+            try:
+                for _ in range(6):
+                    await asyncio.sleep(0)
+                if all(t.done() for t in tasks):
+                    return tasks[0].result()      # raises
+                k, outs = 0, []
+                while k < len(sent):
+                    frame = sent[k]
+                    k += 1
+                    length, dgs, _ = parse_frame(frame)
+                    r = bytearray(frame)
+                    for d in dgs[1:]:
+                        outs.append(bytes(d["data"]))
+                        r[d["datapos"]:d["datapos"] + d["len"]] = self._resp(case, d["data"])
+                        struct.pack_into("<H", r, d["datapos"] + d["len"], 1)
+                    ec.datagram_received(bytes(r), None)
+                    for _ in range(4):
+                        await asyncio.sleep(0)
+                rets = [await asyncio.wait_for(t, 60) for t in tasks]
+                if len(outs) != n or any(o_ != outs[0] for o_ in outs):
+                    raise AssertionError(f"{n} identical concurrent requests were sent as {len(outs)} datagrams / with different payloads")
+                if any(r_ != rets[0] for r_ in rets):
+                    bad = [i for i, r_ in enumerate(rets) if r_ != rets[0]]
+                    raise AssertionError(f"{n} identical concurrent requests with identical responses returned different values: request {bad[0]} gave {rets[bad[0]]!r}, request 0 {rets[0]!r}")
+                return outs[0], rets[0], self._resp(case, outs[0])
+            finally:
+                loop_task.cancel()
+                for t in tasks:
+                    t.cancel()
+
         async def go():
+            if case.get("loop"):
+                return await go_loop(case["loop"])
             ec = EtherCat("verif0")
             ec.send_queue = asyncio.Queue()
             task = asyncio.ensure_future(ec.roundtrip(ECCmd.FPRD, 7, 0x10, *pyargs, data=case["data"]))
@@ -119,7 +166,11 @@ class C13(Check):
         try:
             out, ret, resp = asyncio.run(go())
         except struct.error as e:
+            if case.get("loop") and "requires" not in str(e) and "format" not in str(e) and "argument" not in str(e) and "pack" not in str(e):
+                return Err(2, f"decoding a response failed: {e}")
             return Err(1, str(e))
+        except AssertionError as e:
+            return Err(2, str(e))
         if case["data"] is None:
             enc = [0, list(ret)]
         elif pyargs:
@@ -243,7 +294,8 @@ class C13(Check):
     def rule(self):
         return ("argument lists of 0-3 (format, values) groups over B H I Q b h i q, pad bytes, byte strings and counted items, "
                 "optional trailing read-only format, data = None / count (often 0) / bytes (often empty); 8% malformed "
-                "(out-of-range or wrong count); bus echoes or returns random bytes. Non-trivial = has arguments and succeeded; "
+                "(out-of-range or wrong count); bus echoes or returns random bytes; 15% of the requests are issued by 2, 15, 16, 17 or 20 tasks at once "
+                "through the real send loop (17 and 20 overflow one frame). Non-trivial = has arguments and succeeded; "
                 "distinct by full case content")
 
     def distribution(self, cases, observed):
